@@ -17,7 +17,11 @@ ENV_THEOREMS = ["env_documented", "release_tags_exact", "build_tags_exact", "too
 VOCAB = ["js", "ecmascript", "wasm", "gc", "gccgo", "gopherjs", "netgo", "purego", "math_big_pure_go", "cgo", "linux", "unix",
          "windows", "amd64", "go1.1", "go1.19", "go1.20", "go1.21", "go1.23", "go1.99", "ignore", "foo", "bar", "darwin",
          "android", "solaris", "race", "boringcrypto", "goexperiment.boringcrypto", "osusergo", "gopherjs2"]
-USER_TAGS = ["foo", "bar", "linux", "wasm", "go1.21", "cgo", "ecmascript", "unix", "amd64", "goexperiment.boringcrypto", "ignore", "gccgo"]
+ALWAYS = ["js", "ecmascript", "gc", "netgo", "purego", "math_big_pure_go", "gopherjs", "wasm", "go1.20", "go1.21", "cgo"]
+# adversarial user tags: look-alikes of the always-on tags (prefix/suffix/substring/case), duplicates of them
+LOOKALIKE = sorted({f(t) for t in ALWAYS for f in (lambda t: t + "_debug", lambda t: "no" + t, lambda t: "my_" + t + "_impl", lambda t: t + "2",
+                                                 lambda t: t[:-1], lambda t: t.capitalize(), lambda t: t)})
+USER_TAGS_BASE = ["foo", "bar", "linux", "wasm", "go1.21", "cgo", "ecmascript", "unix", "amd64", "goexperiment.boringcrypto", "ignore", "gccgo"]
 SUFFIXES = ["", "_js", "_wasm", "_js_wasm", "_linux", "_linux_amd64", "_amd64", "_ecmascript", "_js_ecmascript", "_unix", "_test",
             "_js_test", "_wasm_test", "_windows_test", "_foo", "_js_foo", "_", "__js", "_js_", "_darwin_arm64", "_plan9", "_gopherjs",
             "_wasip1", "_amd64_js", "_js_amd64", "_test_js"]
@@ -29,6 +33,9 @@ STD_PKGS = ["math", "os", "syscall", "internal/cpu", "sync/atomic", "time", "uni
 POSTLOAD_TWEAKED = ["runtime", "runtime/pprof", "sync", "syscall/js"]
 
 
+USER_TAGS = USER_TAGS_BASE + LOOKALIKE
+
+
 def tag_tok(t):
     if t.startswith("go1.") and t[4:].isdigit() and str(int(t[4:])) == t[4:]:
         return "r:" + t[4:]
@@ -37,7 +44,7 @@ def tag_tok(t):
 
 def gen_expr(rng, depth):
     if depth == 0 or rng.random() < 0.3:
-        return ("tag", rng.choice(VOCAB))
+        return ("tag", rng.choice(VOCAB) if rng.random() < 0.85 else rng.choice(LOOKALIKE))
     k = rng.random()
     if k < 0.3:
         return ("not", gen_expr(rng, depth - 1))
@@ -95,7 +102,8 @@ def gen_file(rng, idx):
 def gen_jobs(rng, n):
     jobs = []
     for i in range(n):
-        tags = [t for t in USER_TAGS if rng.random() < 0.2]
+        tags = [t for t in USER_TAGS_BASE if rng.random() < 0.2] + [t for t in LOOKALIKE if rng.random() < 0.04]
+        rng.shuffle(tags)
         files = {}
         for k in range(rng.randrange(3, 12)):
             name, content = gen_file(rng, k)
@@ -184,6 +192,12 @@ def run(tier, seed):
             chk.proof.failed.append((t, "GV.Props.C18Env does not build against the regenerated facts: %s" % json.dumps(facts)[:500]))
         chk.notes.append("extracted facts differ from the documented configuration; searching with the widened generator")
         chk.proof.build_log = envp.build_log
+    # the context goCtx builds for user tag lists (incl. look-alikes of the always-on tags) vs the model's userCtx
+    tl = [[]] + [[t] for t in LOOKALIKE] + [[t for t in USER_TAGS if chk.rng.random() < 0.1] for _ in range(200)]
+    tl = [[t for t in x if "," not in t] for x in tl]
+    impl_ctx = C.run_gvh_lines(["ctxtags"], [",".join(x) if x else "-" for x in tl], name="gvh_c18", extra_env=env_clean)
+    ctx_ops = ["bt ctxtags %s" % (",".join(tag_tok(t) for t in x) if x else "-") for x in tl]
+    chk.compare("goCtx-tags", ctx_ops, impl_ctx, C.run_driver("C18", ctx_ops), kind=lambda o, a: "ctxtags")
     widen = not envp.build_ok
     n = (1500 if tier == "thorough" else 250) * (3 if widen else 1)
     jobs = gen_jobs(chk.rng, n)
